@@ -507,6 +507,52 @@ func roundTrips(rep *reporter, bases []*baseTx) {
 		if !bytes.Equal(js, js2) {
 			fail("json-remarshals-identically", string(js2))
 		}
+		// the JSON form carries an informational "hash" member: a document in which one signed field was
+		// changed and "hash" left alone decodes (if at all) to a transaction whose hash is the hash of its
+		// own content, not the one the document claims
+		for _, fld := range []string{"nonce", "gasPrice", "gas", "to", "value", "input", "v", "r", "s"} {
+			m2 := map[string]interface{}{}
+			for k, v := range m {
+				m2[k] = v
+			}
+			switch old := m[fld].(type) {
+			case nil:
+				m2[fld] = "0x00000000000000000000000000000000000000aa"
+			case string:
+				switch fld {
+				case "to":
+					last := old[len(old)-1]
+					r := byte('1')
+					if last == '1' {
+						r = '2'
+					}
+					m2[fld] = old[:len(old)-1] + string(r)
+				case "input":
+					m2[fld] = old + "00"
+				default:
+					v, ok := new(big.Int).SetString(strings.TrimPrefix(old, "0x"), 16)
+					if !ok {
+						continue
+					}
+					m2[fld] = "0x" + v.Add(v, big.NewInt(1)).Text(16)
+				}
+			}
+			jm, _ := json.Marshal(m2)
+			tx3 := new(types.Transaction)
+			if json.Unmarshal(jm, tx3) != nil {
+				continue
+			}
+			enc3, err := rlp.EncodeToBytes(tx3)
+			if err != nil {
+				continue
+			}
+			if tx3.Hash() != common.BytesToHash(keccak(enc3)) {
+				fail("json-hash-member-is-not-trusted", fmt.Sprintf("field %s changed in the JSON text, \"hash\" kept: decoded transaction reports hash %s, its content hashes to %x", fld, tx3.Hash().Hex(), keccak(enc3)))
+			}
+			if tx3.Hash() == h0 {
+				fail("json-field-change-changes-hash", fmt.Sprintf("field %s changed in the JSON text but the decoded transaction keeps the original hash", fld))
+			}
+		}
 		run.Eval(3)
 		run.Class("roundtrip|" + b.s.kind + "|to=" + fmt.Sprint(b.c.to != nil) + "|data=" + fmt.Sprint(len(b.c.data)))
 		if i == 11 {
